@@ -602,10 +602,10 @@ def run(tier='quick', seed=0, info=None):
                   'and every operator x configuration B x the 23 inputs IN_MID (all over {a,b} of length <= 3, '
                   'and a blank before / after / between one or two letters)',
            bound='4 nodes, 23 inputs of length <= 3', exhaustive=True)
-        go('two-rule', two_rule(2, 2), [('B', IN_MID, (None,)), ('B', G.inputs('ab ', 2), ('@last',))],
+        go('two-rule', two_rule(2, 2), [('B', IN_MID, (None,)), ('B', ('', 'a', ' a', 'a ', 'ab', 'b', 'aa'), ('@last',))],
            domain='`start = e` with e of <= 2 nodes calling a second rule named r (skips whitespace at entry) or '
                   'R (does not), whose body has <= 2 nodes (full leaf alphabet) x configuration B x IN_MID from the '
-                  "first rule, and all inputs over {a,b,' '} of length <= 2 with start=<second rule>",
+                  "first rule, and 7 inputs of length <= 2 with start=<second rule> named explicitly",
            bound='<= 2 + 2 nodes, 23 inputs of length <= 3', exhaustive=True)
         go('two-rule-3-core', two_rule(3, 0, 'core', exact=True, callees=CALLEES), [('B', IN_MID, (None,))],
            domain='`start = e` with e of exactly 3 nodes (core leaves) calling r / R whose body is one of the 11 '
